@@ -244,6 +244,8 @@ class Q:
         self.abs_queries = 0
         self.abs_decided = 0
         self.use_cvc5 = True
+        self.escalate = 60
+        self.escalated = 0
 
     def check(self, *formulas, rlimit=None, hints=None):
         """-> ('unsat'|'sat'|'unknown', model-like or None); the model has
@@ -269,6 +271,18 @@ class Q:
             t = time.time()
             rs, model = self._cvc5(formulas)
             self.solver_s += time.time() - t
+        if rs == "unknown" and self.escalate:
+            # last resort: the exact query with a much larger budget
+            z3 = self.z3
+            s = z3.Solver()
+            s.set("rlimit", (rlimit or self.rlimit) * self.escalate)
+            s.set("timeout", self.timeout_ms * 8)
+            s.add(*formulas)
+            t = time.time()
+            rs = str(s.check())
+            self.solver_s += time.time() - t
+            self.escalated += 1
+            model = s.model() if rs == "sat" else None
         return rs, model
 
     def _check(self, formulas, rlimit=None):
